@@ -30,6 +30,7 @@ package deferred
 //@   call[Storage.Has#0] assert delegate [C20]: arg1 == ctx && arg2 == key && dcw.w != nil && ref(arg0) == ref(dcw.w)
 
 //@ func (*DeferredCarWriter).Put
+//@   modifies dcw.w, dcw.f, fx(dcw), dcw.putCb
 //@   call[DeferredCarWriter.writer#0] assert after_every_registered_callback_ran [C20]: dcw.putCb == nil || i == len(dcw.putCb)
 //@   requires unlocked [C08]: held(dcw.lk) == 0
 //@   effects require never_directly [C20]: false
@@ -45,6 +46,7 @@ package deferred
 //@   ensures released [C08]: held(dcw.lk) == 0
 
 //@ func (*DeferredCarWriter).Close
+//@   modifies dcw.closed, dcw.f, fx(dcw)
 //@   requires unlocked [C08]: held(dcw.lk) == 0
 //@   ensures closed [C20]: dcw.closed
 //@   ensures twice_err [C20]: old(dcw.closed) ==> err == carstorage.ErrClosed
